@@ -104,17 +104,22 @@ fn fields(min: usize, max: usize) -> impl Strategy<Value = Vec<FT>> {
 fn var() -> impl Strategy<Value = Var> {
     prop_oneof![
         1 => Just(Var::Unit),
-        2 => fields(1, 3).prop_map(Var::Tuple),
-        2 => fields(1, 3).prop_map(Var::Named),
+        4 => fields(1, 3).prop_map(Var::Tuple),
+        4 => fields(1, 3).prop_map(Var::Named),
+        // wide variants: field positions with two digits
+        1 => fields(9, 13).prop_map(Var::Tuple),
+        1 => fields(9, 13).prop_map(Var::Named),
     ]
 }
 
 fn type_def() -> impl Strategy<Value = TypeDef> {
     (
         prop_oneof![
-            3 => fields(1, 6).prop_map(Shape::Named),
-            3 => fields(1, 6).prop_map(Shape::Tuple),
-            3 => proptest::collection::vec(var(), 1..=5).prop_map(Shape::Enum),
+            6 => fields(1, 6).prop_map(Shape::Named),
+            6 => fields(1, 6).prop_map(Shape::Tuple),
+            1 => fields(9, 13).prop_map(Shape::Named),
+            1 => fields(9, 13).prop_map(Shape::Tuple),
+            7 => proptest::collection::vec(var(), 1..=5).prop_map(Shape::Enum),
         ],
         prop::bool::weighted(0.2),
     )
@@ -769,7 +774,7 @@ fn minimise(p: &Program, idx: usize, is_comp: bool) -> Program {
 fn c18_run(ctx: &ShardCtx) -> ShardResult {
     let n_types = ctx.tier.pick(40, 60);
     let n_comps = ctx.tier.pick(16, 24);
-    let rounds = ctx.tier.pick(1, 6);
+    let rounds = ctx.tier.pick(1, 12);
     let mut stats = Stats::default();
     let mut runner = proptest::test_runner::TestRunner::new(proptest::test_runner::Config {
         rng_seed: proptest::test_runner::RngSeed::Fixed(ctx.shard_seed(18)),
@@ -814,7 +819,7 @@ pub fn c18() -> Property {
             shards: |t: Tier| t.pick(1, 8),
             run: c18_run,
             replay: c18_replay,
-            rule: "a proptest strategy over a type-definition grammar (named / tuple structs with 1..6 fields, enums with 1..5 variants of unit / tuple / named kind, field types Entity, u8, i64, String, Option<u16>, Vec<u32>, (u8,bool), [u8;3], earlier derived types to nesting depth 3, a generic parameter instantiated with Entity and with u32, fields marked #[convert_save_load_skip_convert] with and without a forwarded #[convert_save_load_attr(serde(skip, default))]) and over #[derive(Component)] declarations (no attribute, #[storage(K)], #[storage(K<Self>)], path-qualified, seven storage kinds, generic structs); the printed crate contains per type a hand-expanded field-wise reference conversion (independent of the macro); per type and value (50 quick / 200 thorough): serde_json(convert_into) == reference JSON, convert_from through a marker mapping that composes to a permutation == field-wise expectation, TypeId of the derived Storage == requested storage; non-trivial = a type with >= 2 fields mixing Entity and non-Entity fields or an enum with >= 2 variant kinds (components: an explicit storage attribute); evaluations = type definitions checked",
+            rule: "a proptest strategy over a type-definition grammar (named / tuple structs with 1..6 (occasionally 9..13) fields, enums with 1..5 variants of unit / tuple / named kind (1..3, occasionally 9..13 fields), field types Entity, u8, i64, String, Option<u16>, Vec<u32>, (u8,bool), [u8;3], earlier derived types to nesting depth 3, a generic parameter instantiated with Entity and with u32, fields marked #[convert_save_load_skip_convert] with and without a forwarded #[convert_save_load_attr(serde(skip, default))]) and over #[derive(Component)] declarations (no attribute, #[storage(K)], #[storage(K<Self>)], path-qualified, seven storage kinds, generic structs); the printed crate contains per type a hand-expanded field-wise reference conversion (independent of the macro); per type and value (50 quick / 200 thorough): serde_json(convert_into) == reference JSON, convert_from through a marker mapping that composes to a permutation == field-wise expectation, TypeId of the derived Storage == requested storage; non-trivial = a type with >= 2 fields mixing Entity and non-Entity fields or an enum with >= 2 variant kinds (components: an explicit storage attribute); evaluations = type definitions checked",
             exe_env: None,
         }],
         crash_is_violation: false,
